@@ -1,10 +1,10 @@
 (* C03  Rank equals the Baker-Norine rank in both calculation modes.
-   Plain mode: proved (every fuel on which the model returns). Optimized mode: proved relative to Riemann-Roch, which enters as two explicit
-   hypotheses in the statement (C03_rank_optimized_partial); the abstract core of Riemann-Roch (RR_iff) is proved from the burning certificate
-   and the K-symmetry of the unwinnable divisors of degree g-1; the glue from C09/C11 to those two facts is not finished (partial). *)
+   Plain mode: the k-loop computes the Baker-Norine rank (every fuel on which the model returns). Optimized mode: Riemann-Roch is PROVED
+   (C03_riemann_roch, for every connected multigraph, from the burning certificate of C09 and the symmetry D(O) + D(rev O) = K), so the optimized
+   rank equals the Baker-Norine rank and both modes agree, with no hypothesis left. The conditional statement is kept as well. *)
 From Coq Require Import ZArith List Bool Permutation.
 Import ListNotations.
-From CF Require Import ZSum ListAux Defs Core RankLink RiemannRoch.
+From CF Require Import ZSum ListAux Defs Core RankLink RiemannRoch RRLink.
 Open Scope Z_scope.
 
 (* plain mode: -1 exactly when unwinnable, otherwise the largest k with D - E winnable for every effective E of degree k *)
@@ -35,13 +35,31 @@ Theorem C03_rank_optimized_partial : forall g, wfb g = true -> (0 < nv g)%nat ->
   forall kfuel fuel D r, length D = nv g -> rank_opt kfuel fuel g D = Done r -> is_rank (Vg g) (mult g) (nthZ D) r.
 Proof. exact rank_opt_spec_partial. Qed.
 Print Assumptions C03_rank_optimized_partial.
-(* the abstract Riemann-Roch core *)
-Theorem C03_RR_core : forall V m, (forall v w, m v w = m w v) -> forall (gg : Z) (K : nat -> Z), RiemannRoch.deg V K = 2 * gg - 2 ->
-  (forall X, ~ RiemannRoch.winnable V m X -> exists nu, N V m gg nu /\ RiemannRoch.winnable V m (fun v => nu v - X v)) ->
-  (forall nu, N V m gg nu -> N V m gg (fun v => K v - nu v)) ->
-  forall D k, unwinnable_at V m D k <-> unwinnable_at V m (fun v => K v - D v) (k - RiemannRoch.deg V D - 1 + gg).
-Proof. exact RR_iff. Qed.
-Print Assumptions C03_RR_core.
+(* Riemann-Roch itself, for every connected multigraph: level k for D  <->  level k - deg D - 1 + g for K - D *)
+Theorem C03_riemann_roch : forall g, wfb g = true -> connected_b g = true -> (0 < nv g)%nat -> forall D k,
+  unwinnable_at (Vg g) (mult g) D k <-> unwinnable_at (Vg g) (mult g) (fun v => canonical (Vg g) (mult g) v - D v) (k - deg (Vg g) D - 1 + genus (Vg g) (mult g)).
+Proof. exact riemann_roch_model. Qed.
+Print Assumptions C03_riemann_roch.
+(* in rank form: r(D) = r(K - D) + deg D + 1 - g, and r(D) = deg D - g whenever deg D > 2g - 2 *)
+Theorem C03_riemann_roch_rank : forall g, wfb g = true -> connected_b g = true -> (0 < nv g)%nat -> forall D r', length D = nv g ->
+  is_rank (Vg g) (mult g) (nthZ (dsub (nv g) (canonical_g g) D)) r' -> is_rank (Vg g) (mult g) (nthZ D) (r' + degD g D + 1 - genus_g g).
+Proof. exact RR_for_rank. Qed.
+Print Assumptions C03_riemann_roch_rank.
+Theorem C03_rank_above_2g_minus_2 : forall g, wfb g = true -> connected_b g = true -> (0 < nv g)%nat -> forall D, length D = nv g ->
+  winnable (Vg g) (mult g) (nthZ D) -> 2 * genus_g g - 2 < degD g D -> is_rank (Vg g) (mult g) (nthZ D) (degD g D - genus_g g).
+Proof. exact RR_corollary_for_rank. Qed.
+Print Assumptions C03_rank_above_2g_minus_2.
+(* hence optimized mode computes the Baker-Norine rank too, and the two modes agree (uniqueness) *)
+Theorem C03_rank_optimized : forall g, wfb g = true -> connected_b g = true -> (0 < nv g)%nat -> forall kfuel fuel D r, length D = nv g ->
+  rank_opt kfuel fuel g D = Done r -> is_rank (Vg g) (mult g) (nthZ D) r.
+Proof. exact rank_opt_spec. Qed.
+Print Assumptions C03_rank_optimized.
+Theorem C03_modes_agree : forall g, wfb g = true -> connected_b g = true -> (0 < nv g)%nat -> forall k1 f1 k2 f2 D r1 r2, length D = nv g ->
+  rank_plain k1 f1 g D = Done r1 -> rank_opt k2 f2 g D = Done r2 -> r1 = r2.
+Proof. intros g Hwf Hc Hn k1 f1 k2 f2 D r1 r2 HL H1 H2. apply (is_rank_unique g Hn (nthZ D)).
+  - eapply rank_plain_spec; eauto.
+  - eapply rank_opt_spec; eauto. Qed.
+Print Assumptions C03_modes_agree.
 (* regression statement for the repaired defect d3: returning r(K-D) uncorrected is wrong *)
 Definition K3x2 : graph := [[0;2;2];[2;0;2];[2;2;0]].
 Theorem rank_opt_uncorrected_refuted : exists g D, wfb g = true /\ connected_b g = true /\
